@@ -197,6 +197,13 @@ func genC07(t *rapid.T) c07Case {
 	if rapid.IntRange(0, 3).Draw(t, "chainprog") == 0 {
 		c.Prog = pgen.GenChain(t, rapid.IntRange(2, 3).Draw(t, "chaindepth"), inits, 2*c.Seg, 3*c.Seg, 3*c.Seg+1)
 	}
+	twoPerStage := false
+	if rapid.IntRange(0, 3).Draw(t, "twoperstage") == 0 {
+		// two stores in every stage: a unit is complete only when both have their snapshot, and the cache can hold the
+		// files of one and not of the other
+		c.Prog = pgen.GenChainOpts(t, rapid.IntRange(1, 2).Draw(t, "twodepth"), []uint64{0, 0, 1, c.Seg}, pgen.ChainOpts{Siblings: true})
+		twoPerStage = true
+	}
 	c.Run = genRun(t, c.Prog, c.Seg, c.Head)
 	c.Run.Workers = rapid.IntRange(1, 3).Draw(t, "c07workers")
 	c.Run.JobOrder = nil
@@ -212,7 +219,11 @@ func genC07(t *rapid.T) c07Case {
 	n := rapid.IntRange(3, 8).Draw(t, "nsubsets")
 	for i := 0; i < n; i++ {
 		var sub []int
-		switch rapid.IntRange(0, 4).Draw(t, "subsetkind") {
+		kindMax := 4
+		if twoPerStage {
+			kindMax = 6 // directory-wise subsets three times as often
+		}
+		switch k := rapid.IntRange(0, kindMax).Draw(t, "subsetkind"); min(k, 4) {
 		case 4: // directory-wise
 			sub = []int{-100000 - rapid.IntRange(0, 1<<16-1).Draw(t, "dirmask")}
 		case 0: // crash point: a prefix of the write order
